@@ -404,18 +404,22 @@ func init() {
 			getIndex(c)
 			bufferRangeDiff(c)
 			registerAndCommit(c)
+			bufferWriterAudit(c) // Slice/Size equal the put order only if Put copies into the buffer's own array and only a prefix is ever dropped
 			out := c.sel(func(o *an.Oblig) bool {
 				if isUndecided(o) || o.Rule == "ANCHOR" {
 					return true
 				}
-				if ruleIn(o, "G", "ESC", "AT") && funcHas(o, "(*Buffer).cleanupLogic", "(*Buffer).consumerOffsets", "(*Buffer).Size", "(*Buffer).Slice", "(*Buffer).Diff", "(*Buffer).NewConsumer", "(*Buffer).commit") {
+				if ruleIn(o, "G", "ESC", "AT", "REQ") && funcHas(o, "(*Buffer).cleanupLogic", "(*Buffer).consumerOffsets", "(*Buffer).Size", "(*Buffer).Slice", "(*Buffer).Diff", "(*Buffer).NewConsumer", "(*Buffer).commit") {
+					return true
+				}
+				if o.Rule == "REQ" && subjHas(o, "Diff reads") {
 					return true
 				}
 				return false
 			})
 			var mine []*an.Oblig
 			for _, o := range c.C.List {
-				if funcHas(o, "DefaultCleaner", "FixedBufferCleaner", "cleanupLogic", "consumerOffsets", "(*Buffer).Size", "(*Buffer).Slice", "(*Buffer).get", "(*Buffer).Diff", "(*Buffer).NewConsumer", "(*Buffer).commit") || o.Rule == "ANCHOR" {
+				if funcHas(o, "DefaultCleaner", "FixedBufferCleaner", "cleanupLogic", "consumerOffsets", "(*Buffer).Size", "(*Buffer).Slice", "(*Buffer).get", "(*Buffer).Diff", "(*Buffer).NewConsumer", "(*Buffer).commit") || o.Rule == "ANCHOR" || o.Rule == "WR" {
 					mine = append(mine, o)
 				}
 			}
@@ -428,6 +432,7 @@ func init() {
 			floorKey("cleanupLogic guards", 3, "COND/(*Buffer).cleanupLogic/"),
 			floorKey("consumerOffsets", 2, "/(*Buffer).consumerOffsets/"),
 			floorKey("get guards", 2, "COND/(*Buffer).get/"),
+			floorKey("Diff snapshot under both locks", 4, "REQ/", "Diff reads"),
 		},
 	})
 }
